@@ -56,6 +56,7 @@ CLASSES = ["cbd_clusters", "sx_blobs", "cbd_lower_geom1", "sx_noise_dense", "cbd
            "cbd_near_tie", "sx_faces", "cbd_small_n", "sx_files", "cbd_odd_labels", "sx_sigma", "cbd_equal_scores_apart",
            "sx_negative"]
 SX_COLS = ["x", "y", "z", "score", "phi", "theta", "psi"]
+ANGLE_TOL = 1e-9        # degrees: pandas' CSV float parser is not correctly rounded (1 ulp off on 17-digit decimals)
 
 
 def plan(tier):
@@ -264,7 +265,7 @@ def _sx_post(ctx, A, Z, result):
         base, row=int(bad[0]), xyz=pos[bad[0]].tolist(), reported_score=float(T[bad[0], 3]), map_value_at_xyz_minus_1=float(pv[bad[0]]),
         n_wrong=int(len(bad))))
     exp = L[idx[vox[:, 0], vox[:, 1], vox[:, 2]]]
-    neq = T[:, 4:7] != exp
+    neq = np.abs(T[:, 4:7] - exp) > ANGLE_TOL
     bad = np.nonzero(neq.any(axis=1))[0]
     ctx.check("sx_angles", len(bad) == 0, None if len(bad) == 0 else dict(
         base, row=int(bad[0]), xyz=pos[bad[0]].tolist(), list_row=int(idx[tuple(vox[bad[0]])]), numbering=A["angles_numbering"],
@@ -577,9 +578,11 @@ def _gen_sx(ctx, rng, cls, big):
     kind = "noise" if cls in ("sx_noise_dense", "sx_few_supra") else ("faces" if cls == "sx_faces" else str(rng.choice(["blobs", "blobs", "noise"])))
     f = _field(rng, shape, kind)
     if cls == "sx_negative":
-        f = f * float(rng.choice([1.0, 30.0])) - float(f.max()) - float(rng.uniform(0.1, 5))
+        f = f * float(rng.choice([1.0, 30.0]))
+        f = f - float(f.max()) - float(rng.uniform(0.1, 5))
     elif rng.random() < 0.3:
-        f = f * float(rng.choice([1e-3, 50.0, 1e4])) + float(rng.choice([0.0, -0.2, 3.0]))
+        sc = float(rng.choice([1e-3, 50.0, 1e4]))
+        f = (f + float(rng.choice([0.0, -0.2, 3.0]))) * sc
     S32 = _plateau_free32(f, rng)
     srt = np.sort(S32.ravel().astype(np.float64))
     cap = 20000 if big else 5000
@@ -608,7 +611,12 @@ def _gen_sx(ctx, rng, cls, big):
         thr = float(srt[0] - 1.0)
     else:
         thr = float((srt[-k - 1] + srt[-k]) / 2.0)
-    use64 = bool(rng.random() < 0.35)
+    as_files = cls == "sx_files" or rng.random() < 0.15
+    io = {"scores": "array", "angles": "array", "list": "array"}
+    if as_files:
+        io = {"scores": str(rng.choice(["em", "mrc"])), "angles": str(rng.choice(["em", "mrc", "array"])),
+              "list": str(rng.choice(["csv", "csv", "array"]))}
+    use64 = bool(rng.random() < 0.35) and io["scores"] == "array"
     S = S32.astype(np.float64) if use64 else S32
     if cls == "sx_sigma" or (cls in ("sx_blobs", "sx_noncubic", "sx_faces") and rng.random() < 0.25):
         for _ in range(40):
@@ -631,12 +639,7 @@ def _gen_sx(ctx, rng, cls, big):
     Aidx = rng.integers(0, nl, shape)
     adt = str(rng.choice(["int64", "int32", "float32", "float64"]))
     Amap = (Aidx + numbering).astype(adt)
-    as_files = cls == "sx_files" or rng.random() < 0.15
     order = "zzx" if rng.random() < (0.5 if as_files else 0.2) else "zxz"
-    io = {"scores": "array", "angles": "array", "list": "array"}
-    if as_files:
-        io = {"scores": str(rng.choice(["em", "mrc"])), "angles": str(rng.choice(["em", "mrc", "array"])),
-              "list": str(rng.choice(["csv", "csv", "array"]))}
     c = {"kind": "sx", "S": S, "A": Amap, "L": L, "numbering": numbering, "order": order, "dia": dia, "thr_kind": thr_kind,
          "thr": thr, "sigma": sigma, "io": io, "tomo_id": int(rng.integers(1, 300)),
          "object_id": None if rng.random() < 0.5 else int(rng.integers(1, 9)), "n_supra": int(k)}
@@ -718,8 +721,11 @@ def _variant(rng, name, c, base_ids):
             Pg = P[own]
             # move foreign particles right onto / next to particles of group g, give them the best metric
             tgt = Pg[rng.integers(0, len(Pg), len(other))] + rng.uniform(-1, 1, (len(other), 3)) * d * rng.choice([0.0, 0.3, 1.5])
-            P[other] = tgt
-            _split_positions(rng, df, P, 2.0)
+            sh = rng.uniform(-2, 2, tgt.shape)                 # group g itself stays bit-identical
+            for k, (cx, cs) in enumerate((("x", "shift_x"), ("y", "shift_y"), ("z", "shift_z"))):
+                vx, vs = df[cx].to_numpy(dtype=float).copy(), df[cs].to_numpy(dtype=float).copy()
+                vx[other], vs[other] = tgt[:, k] - sh[:, k], sh[:, k]
+                df[cx], df[cs] = vx, vs
             mv = df[metric].to_numpy(dtype=float).copy()
             span = np.abs(mv).max() + 1
             mv[other] = (mv[own].max() + span * rng.uniform(1, 2, len(other))) if kg else (mv[own].min() - span * rng.uniform(1, 2, len(other)))
@@ -835,14 +841,10 @@ def _run_sx(ctx, c):
         kw2 = dict(kw)
         expect = T0
         if name == "arrays_instead_of_files":
-            S2 = np.asarray(S, dtype=np.float32) if c["io"]["scores"] != "array" else S
-            if c["thr_kind"] == "sigma" and S2.dtype != S.dtype:
-                ctx.ood("sx_relational")          # sigma threshold of a float32 copy may differ in the last bits
-                continue
-            a2 = [S2, A, np.array(L)]
+            a2 = [S, A, np.array(L)]                 # S is float32 whenever the scores came from a file
         elif name == "files_instead_of_arrays":
-            if S.dtype != np.float32:
-                ctx.ood("sx_relational")
+            if S.dtype != np.float32 and c["thr_kind"] == "sigma":
+                ctx.ood("sx_relational")          # sigma threshold of the float32 file may differ in the last bits
                 continue
             io2 = {"scores": str(rng.choice(["em", "mrc"])), "angles": str(rng.choice(["em", "mrc"])), "list": "csv"}
             kw2["angles_order"] = str(rng.choice(["zxz", "zzx"]))
@@ -885,10 +887,13 @@ def _run_sx(ctx, c):
             good = expect is None and Tv is None
             w = {"variant": name, "reason": "one run returned None, the other did not"}
         else:
-            good = expect.shape == Tv.shape and bool(np.array_equal(expect, Tv))
+            neq = None
+            if expect.shape == Tv.shape:
+                neq = np.column_stack([expect[:, :4] != Tv[:, :4], np.abs(expect[:, 4:] - Tv[:, 4:]) > ANGLE_TOL])
+            good = neq is not None and not neq.any()
             w = {"variant": name, "n_expected": int(len(expect)), "n_got": int(len(Tv))}
-            if not good and expect.shape == Tv.shape:
-                r, cc = np.argwhere(expect != Tv)[0]
+            if not good and neq is not None:
+                r, cc = np.argwhere(neq)[0]
                 w.update(first_diff_row=int(r), field=SX_COLS[int(cc)], expected=expect[r].tolist(), got=Tv[r].tolist())
         ctx.check("sx_relational", good, None if good else dict(w, shape=list(S.shape), diameter=c["dia"], order=kw2["angles_order"],
                                                                 numbering=c["numbering"]))
